@@ -28,6 +28,9 @@ try:
 
     build_so()
     shutil.copy(demo, repo)
+    helper = os.path.join(src, "tfl_builder.py")  # model-building helper the demo may import
+    if os.path.exists(helper):
+        shutil.copy(helper, repo)
     env = dict(os.environ, PYTHONPATH=repo, PYTHONDONTWRITEBYTECODE="1")
 
     def run_demo():
@@ -53,6 +56,8 @@ try:
     os.makedirs(dst, exist_ok=True)
     shutil.copy(patch, os.path.join(dst, "patch.diff"))
     shutil.copy(demo, dst)
+    if os.path.exists(helper):
+        shutil.copy(helper, dst)
     notes = os.path.join(src, "NOTES.md")
     if os.path.exists(notes):
         shutil.copy(notes, dst)
